@@ -18,7 +18,10 @@ def parse_skel(s):
         if ':' in tok:
             tok, topic = tok.split(':')
         n = 1
-        if tok[0] == 'A' and len(tok) > 1:
+        if tok[0] == 'F' and len(tok) > 1:
+            n = int(tok[1:])
+            tok = 'F'
+        elif tok[0] == 'A' and len(tok) > 1:
             # A3 = batch of 3; A3r = last entry oversize; A2L = long topic; A11G = total > 10 GiB
             suf = tok[-1] if tok[-1] in 'rLG' else ''
             n = int(tok[1:len(tok) - len(suf)])
@@ -98,7 +101,7 @@ def mk(docs, job, cfg):
         for i, (kind, topic, n) in enumerate(skel):
             q = queues.setdefault(topic, [])
             d = delivered.setdefault(topic, 0)
-            if kind in ('a', 'A', 'r', 'L', 'Ar', 'AL', 'AG'):
+            if kind in ('a', 'A', 'r', 'L', 'Ar', 'AL', 'AG', 'F'):
                 ents = []
                 wtopic = topic
                 if kind in ('L', 'AL'):
@@ -115,11 +118,18 @@ def mk(docs, job, cfg):
                     for u_, s_ in ents:
                         tot = tot + s_.t + 256
                     x.solver.add(z3.UGT(tot, 10 * 2 ** 30))
-                if not kind.startswith('A'):
+                fault_desc = None
+                if kind == 'F':
+                    # one injected io_uring completion failure (the data reached the file, the completion reports -5)
+                    fi = conc['fault_index'] if conc and 'fault_index' in conc else x.choose(n, 'fault_at_cqe%d' % i)
+                    fault_desc = dict(kind='uring_cqe', nth=fi + 1)
+                    x.fault_hook = lambda k, idx, fi=fi: ('neg_written' if k == 'uring_cqe' and idx == fi else None)
+                if not kind.startswith('A') and kind != 'F':
                     res = engine.api(x, w, 'append_for_topic', [PStr(wtopic), engine.payload(ents[0][0], ents[0][1].t)])
                 else:
                     res = engine.api(x, w, 'batch_append_for_topic', [PStr(wtopic), VVec([engine.payload(u, s.t) for u, s in ents])])
-                ops_out.append(dict(op='append' if not kind.startswith('A') else 'batch_append', topic=wtopic,
+                x.fault_hook = None
+                ops_out.append(dict(op='append' if not (kind.startswith('A') or kind == 'F') else 'batch_append', topic=wtopic, **({'fault': fault_desc} if fault_desc else {}),
                                     entries=[dict(uid=u, len='size%d' % sizes.index(s)) for u, s in ents]))
                 if res.variant == 'Ok':
                     q.extend(ents)
@@ -129,7 +139,7 @@ def mk(docs, job, cfg):
                     return fail('panic', i, 'append panicked: %s' % res.f[0])
                 else:
                     obs.append(dict(err=engine.errkind(x, res)))
-                if 'C15' in oracles and kind in ('r', 'L', 'Ar', 'AL', 'AG'):
+                if 'C15' in oracles and kind in ('r', 'L', 'Ar', 'AL', 'AG', 'F'):
                     # a failed append must not change any count
                     for tt in sorted(queues):
                         c = engine.api(x, w, 'get_topic_entry_count', [PStr(tt)])
